@@ -10,6 +10,55 @@ TECH = "Rocq theorem over an executable model + differential correspondence with
 
 # id -> (level text, level note)   ; absent => not_applicable with REASON
 CLAIMED = {
+ "C01": (
+  "Coq theorems (coq/Properties/C01.v, axiom-free) over an executable pointer machine that mirrors add_bytes / remove_bytes / every "
+  "resize_notification / every container operation line by line (memory as the whole allocation, pointer trees mirroring every Rust "
+  "Ptr type incl. UnsizedList's inner_exclusive / possible_mut_borrow / range). PROVED: full refinement to the owned model for FLAT "
+  "shapes (generated structs of fixed values, lists of any element type / prefix width and a trailing RemainingBytes): "
+  "for every history of insert_all / remove_range interleaved between sibling fields, of any length and sizes, each operation succeeds "
+  "exactly when Vec's does (index, range, length prefix, growth allowance) and every observation - live accessors, raw bytes, fresh "
+  "parse - equals the model (C01_flat_run_refines, _observable, _reborrow, error theorems); for ALL shapes the shift lemma of the "
+  "notification broadcast (C01_notify_shift, covers the repaired D7 branch). Lists / maps of unsized elements, Map / Set / String, "
+  "whole-value replacement and initializers are tied by correspondence: 1.5k (quick) / 40k (thorough) generated histories on 19 "
+  "Rust shapes nested to depth 3 run through the real ExclusiveWrapper API and the extracted machine (0 disagreements), and judged "
+  "against an independent plain-Vec/BTreeMap oracle in Python.",
+  "PARTIAL (stated in Properties/C01.v): the general induction over shapes with lists of unsized elements is not proved; the proved "
+  "theorems carry the suffix _flat. Enums are in the encode/parse universe (C04/C05) but not in the harness family for operations. "
+  "Found and fixed D7 (stale inner pointer not shifted) and D18 (empty trailing RemainingBytes at full capacity fails the pointer "
+  "check: found while proving C03_flat_pointer_assertions_hold); known finding D16 (failing initializer after the resize)."),
+ "C02": (
+  "Coq theorems (coq/Properties/C02.v, axiom-free): for flat shapes, after ANY history the first data_len bytes are exactly "
+  "encode(value) and data_len = byte_size(value) (invariant Rep, C02_flat_canonical_after_any_history); for ALL shapes canonical "
+  "encodings have the announced size, are injective and are read back as the same value by any reader (C02_encode_injective, "
+  "C02_any_reader_sees_the_value). Tie: after every step of 1.2k (quick) / 40k (thorough) histories the harness compares the "
+  "account bytes with from_owned(value read back) byte for byte and the reported length with byte_size, and the extracted machine "
+  "must agree on the checksum of the bytes; histories are biased to lists / maps of unsized elements where unsized_size, the offset "
+  "table and the trailing length copy live.",
+  "PARTIAL: the invariant is proved for flat shapes only; for lists of unsized elements the canonical-form claim rests on the "
+  "correspondence (machine = implementation on every generated history, bytes = from_owned(value))."),
+ "C03": (
+  "Coq theorems (coq/Properties/C03.v, axiom-free). ALL shapes: no operation changes the size of the allocation - every write of "
+  "add_bytes / remove_bytes / the notification broadcast (incl. the offset-table patches of lists of unsized elements) lands inside "
+  "[0, capacity) or the step has outcome Fault (C03_*_stays_in_allocation); check_pointers only accepts trees whose every address "
+  "(recorded inner pointers included) lies in the buffer's range, so an accessor swapped in from another buffer is reported at the "
+  "latest by the drop-time check (C03_swapped_accessor_detected). Flat shapes: no Fault and no pointer assertion in any history, "
+  "growth beyond the allocation is InvalidRealloc before any memmove (C03_realloc_limit), also at capacity-1 / capacity / capacity+1. "
+  "Tie: histories run on an mmap'ed allocation of exactly initial+10240 bytes flush against a PROT_NONE page (before or after) with "
+  "canaries on the other side, each case in a forked child: SIGSEGV and canary damage are observations.",
+  "PARTIAL (DESIGN section 7): the theorems are about the byte-level contract (which offsets are touched); that the Rust pointer "
+  "arithmetic realises those offsets is the correspondence plus guard pages. The swap scenario is proved on the model's "
+  "check_pointers; it is not yet driven on the implementation by the harness beyond the repository's own two should_panic tests."),
+ "C06": (
+  "Coq theorems (coq/Properties/C06.v, axiom-free), flat shapes: every failure of a list operation - index, range, length prefix, "
+  "growth beyond the allowance, growth refused by the data access - is returned before any write; the state still represents the "
+  "same value with canonical bytes and exact length and any later history refines the owned model from it "
+  "(C06_flat_*_is_clean, C06_flat_continue_after_failure). Tie: 1.8k (quick) / 40k (thorough) histories with growth refused during "
+  "step k (k swept over every step of 19 growth-heavy histories) and a generator biased to failing operations; after a failed "
+  "operation bytes, length, live accessors and a fresh parse are observed and further operations applied; model, implementation and "
+  "the plain oracle must agree.",
+  "Known finding D16 (not repaired: not a small safe patch): an element initializer that fails (array longer than the list's "
+  "length prefix allows) runs after the container was resized (UnsizedList::insert_all_with_offsets, set_data_inner): the error "
+  "leaves a modified value / non-canonical bytes. The check prints KNOWN-FINDING for that class and reports any other violation."),
  "C04": (
   "Coq theorems (coq/Properties/C04.v, axiom-free) over the model of UnsizedType::get_ptr / owned_from_ptr for the whole "
   "inductive universe of shapes (fixed-size checked values, lists with any prefix width, trailing bytes, lists and maps of "
@@ -67,6 +116,17 @@ CLAIMED = {
   "Honest level: proof for the comparison lemma, the per-layer iff and the composition rule over the layer algebra; that "
   "each Rust modifier IS the layer the model says is established by exhaustive correspondence over the finite "
   "perturbation domain on the 31-type family (the inductive universe of nestings is represented by that family)."),
+ "C15": (
+  "11 Coq theorems (coq/Properties/C15.v, axiom-free) over an executable model of BorshAccount<T> abstract in the value type's "
+  "borsh (de)serializer: for every value type with an exact-consumption round trip, every account state and every instruction "
+  "history, the value an instruction leaves is what the next instruction decodes and what the client deserializer returns; "
+  "data_len = discriminant size + serialized size after every write-back; read-only, foreign-owned and closed accounts are never "
+  "written; growth beyond the 10 KiB allowance fails with InvalidRealloc and leaves the data untouched. Tie: differential harness "
+  "on native accounts (four borsh types, three discriminant widths, 1.7k sequences quick / 150k thorough) and an independent "
+  "Python borsh predicate.",
+  "The borsh implementation of a user type is an oracle (round trip, non-empty encodings), proved for a combinator model of borsh "
+  "and the four harness types and tied to the real crate by the correspondence. Types with an empty encoding are excluded "
+  "(BorshAccount treats data_len == discriminant size as closed). Found and fixed D6 (write-back serialized the Option wrapper)."),
  "C16": (
   "60 machine-checked theorems (coq/Properties/C16.v, axiom-free): for each of the 36 bound System / SPL Token / ATA "
   "instructions the framework-side encoding (declarations re-extracted from /repo on every run by tools/gen_extra_c16.py and "
@@ -77,6 +137,16 @@ CLAIMED = {
   "PDA hashing is an oracle (Section variable). borsh / bincode primitives are modelled and tied by the correspondence. The multisig "
   "signer tail of owner-signed token instructions is outside the bindings' argument space (proved not expressible, noted). The "
   "reference crates define 'reference'. Found and fixed D17 (RecoverNested owner_ata writable)."),
+ "C20": (
+  "11 Coq theorems (coq/Properties/C20.v, axiom-free): the model of `sf new` is all-or-nothing for every injection oracle over "
+  "mkdir / open / write / rename calls, every well-formed initial file-system state, every name, key and staging tag; an existing "
+  "target (file, dir, any symlink) is refused with nothing changed; the validator accepts exactly the documented strict subset "
+  "after Unicode trimming (keyword list regenerated from the source); rendering leaves no placeholder and writes consistent "
+  "names. Tie: the real validator and renderer (compiled from new_project.rs) on ~10^5 names, and the real `sf` binary under "
+  "strace fault injection at every syscall index with file / dir / symlink targets, comparing the full directory tree.",
+  "Kernel and std::fs behaviour are modelled and tied by replay, not verified. The fault model is any set of failing calls with a "
+  "succeeding cleanup; a failing cleanup leaves the staging directory (theorem + replay). Crash / power loss and concurrent "
+  "creators are out of scope. Found and fixed D20 (hyphenated names: generated test named the wrong .so)."),
  "C18": (
   "7 theorems (coq/Properties/C18.v, axiom-free) over a line-by-line transcription of star_frame_idl/src/verifier/mod.rs: for every "
   "definition set and both resolution modes verify = Ok iff the set is Sound (an independent declarative spec: trimmed namespaces "
